@@ -9,6 +9,14 @@ func extras(prop string) (map[string]any, []string) {
 			"the independent oracle trusts math/big, crypto/sha512 and crypto/ed25519",
 			"a PartialSig with a nil Partial or nil scalar is not generated (no wire decoding can produce a typed nil here without the application's own decoder)",
 		}
+	case "C10":
+		return nil, []string{
+			"sampling within n<=6, t in 2..n, <=3000 events per run; both VSS variants on Ed25519",
+			"broadcast model: safety oracles hold for every delivered history (loss, duplication, reordering allowed); liveness/certification of an honest deal is asserted only in the fault-free class",
+			"a response or timeout that reaches a verifier before its deal is buffered/deferred by the driver (Pedersen documents this duty; Rabin dereferences a nil aggregator in that order - recorded as an observation, C10 does not speak about it)",
+			"the malicious dealer and Byzantine verifiers are finite menus (DESIGN §3 C10)",
+			"trusted: math/big, the harness's own Horner evaluation of the commitment polynomial, deriveH re-derived from the verifiers' keys as the scheme prescribes",
+		}
 	}
 	return nil, nil
 }
